@@ -369,3 +369,45 @@ def _apcs(c):
               "a-data-track-makes-it-a-sampler-image")
     c.ensures("implies(forall(0, len(cue_sheet_file.tracks), lambda k: py_lower(cue_sheet_file.tracks[k].mode) == 'audio'), result.kind == 2)",
               "all-audio-tracks-make-it-CDDA")
+
+
+# ================================================================================================== parse_text_file (C17 / C09)
+# "Text that ... is not ASCII is not treated as a cue sheet": the reader decodes the WHOLE file as ASCII, and a decoding failure anywhere
+# in it - the first line or the last - comes out as BadTextFile (which determine_image_type takes as "not text"), never as the codec's own
+# UnicodeDecodeError; text that decodes is handed on complete (every line, nothing cut off).
+@contract("builtins:open#text", abstract=True, assumed=True, note="open(name, 'r', encoding='ascii'): a text file object (existence of the file is the caller's business)")
+def _open_text(c):
+    c.param("filename", "str")
+    c.param("mode", "str")
+    c.returns(("obj", "TextFile", {"lines": ("list", "str"), "consumed": "int"}))
+    c.ensures("result.consumed == 0")
+    c.modifies()
+
+
+@contract("io:TextFile.readlines", abstract=True, assumed=True,
+          note="TextIOWrapper.readlines(): all remaining lines, or UnicodeDecodeError when a byte of the remaining text is not in the encoding")
+def _readlines(c):
+    c.binds_receiver = True
+    c.returns(("list", "str"))
+    c.raises("UnicodeDecodeError")
+    c.ensures("self.consumed == len(self.lines) and len(result) == len(self.lines) - old(self.consumed)")
+    c.ensures("forall(0, len(result), lambda i: result[i] == self.lines[old(self.consumed) + i])")
+    c.modifies("self.consumed")
+
+
+@contract("io:TextFile.readline", abstract=True, assumed=True, note="TextIOWrapper.readline(): the next line ('' at the end), or UnicodeDecodeError")
+def _readline(c):
+    c.binds_receiver = True
+    c.returns("str")
+    c.raises("UnicodeDecodeError")
+    c.ensures("self.consumed == imin(len(self.lines), old(self.consumed) + 1)")
+    c.ensures("implies(old(self.consumed) < len(self.lines), result == self.lines[old(self.consumed)])")
+    c.modifies("self.consumed")
+
+
+@contract("smpl_extract.actions:parse_text_file", props=["C17", "C09", "C03"])
+def _ptf(c):
+    c.param("filename", "str")
+    c.abstract_calls = {"open": "builtins:open#text", "file.readlines": "io:TextFile.readlines", "file.readline": "io:TextFile.readline"}
+    c.raises("BadTextFile")
+    c.ensures("len(result) == len(file.lines) and forall(0, len(result), lambda i: result[i] == file.lines[i])", "every-line-of-the-file-in-order")
